@@ -109,7 +109,7 @@ impl Drop for Arena {
 }
 
 // ---------------------------------------------------------------- sentinels
-pub const MAX_SLOTS: usize = 1024;
+pub const MAX_SLOTS: usize = 40100;
 static SENT: [u8; MAX_SLOTS * 8 + 16] = [b'~'; MAX_SLOTS * 8 + 16];
 
 pub fn sentinel(i: usize) -> httparse::Header<'static> {
